@@ -21,22 +21,34 @@ graph a real parallel build left behind must pass the model's final-state valida
 import json
 import os
 import sys
+import time
 from concurrent.futures import ThreadPoolExecutor
 
 sys.path.insert(0, os.path.dirname(os.path.dirname(os.path.abspath(__file__))))
 import vlib
 
-MODULES = ["Verif.C18.Theorems"]
+MODULES = ["Verif.C18.Theorems", "Verif.C18.Termination"]
 THEOREMS = [
+    "Verif.C18.created_once",
+    "Verif.C18.built_once",
+    "Verif.C18.no_panic",
     "Verif.C18.wait_complete",
     "Verif.C18.build_complete",
+    "Verif.C18.program_build_complete",
+    "Verif.C18.final_functions",
+    "Verif.C18.schedule_independent",
     "Verif.C18.no_deadlock",
-    "Verif.C18.created_once",
+    "Verif.C18.blocked_on_active_builder",
+    "Verif.C18.build_call_noop",
     "Verif.C18.build_idempotent",
-    "Verif.C18.build_call_noop_when_finished",
-    "Verif.C18.serial_idempotent",
-    "Verif.C18.final_check_complete",
+    "Verif.C18.step_sound",
+    "Verif.C18.step_exact",
+    "Verif.C18.step_enabled",
     "Verif.C18.checkFinal_sound",
+    "Verif.C18.final_check_complete",
+    "Verif.C18.mu_decreases",
+    "Verif.C18.build_terminates",
+    "Verif.C18.build_returns",
 ]
 
 # ----------------------------------------------------------------------------- generator
@@ -330,6 +342,501 @@ def gen_programs(seed, counts):
                 hist[k] = hist.get(k, 0) + v
     return out, hist
 
+
+
+# ----------------------------------------------------------------------------- harness runs
+CORPUS = os.path.join(vlib.VERIF, "corpus", "C18", "programs.json")
+HOWTO = ("write the list [program] to p.json; cd /verif/harness && go build -tags verif [-race] -o c18build ./cmd/c18build; "
+         "GOMAXPROCS=<gomaxprocs> VERIF_C18_YIELD=<yield> ./c18build -in p.json -modes <mode> -reps <reps> -seed <seed>")
+
+
+def run_harness(ctx, binary, progfile, cfg, timeout):
+    """One process of c18build over all programs of progfile. Returns (results, crash) where crash
+    describes a timeout (deadlock), a crash of the process or a race report, attributed to the
+    last BEGIN line."""
+    env = vlib.go_env({"GOMAXPROCS": str(cfg["gomaxprocs"])})
+    env.pop("VERIF_C18_YIELD", None)
+    if cfg.get("yield") is not None:
+        env["VERIF_C18_YIELD"] = str(cfg["yield"])
+    if cfg.get("race"):
+        env["GORACE"] = "halt_on_error=1 exitcode=66"
+    cmd = [binary, "-in", progfile, "-reps", str(cfg["reps"]), "-modes", cfg["modes"], "-seed", str(cfg["seed"])]
+    if cfg.get("abstract"):
+        cmd += ["-abstract", "-trace"]
+    if cfg.get("only"):
+        cmd += ["-only", cfg["only"]]
+    timed_out = False
+    try:
+        p = subprocess.run(cmd, env=env, timeout=timeout, stdout=subprocess.PIPE, stderr=subprocess.PIPE, text=True)
+        rc, so, se = p.returncode, p.stdout, p.stderr
+    except subprocess.TimeoutExpired as e:
+        timed_out = True
+        rc = -9
+        so = e.stdout.decode() if isinstance(e.stdout, bytes) else (e.stdout or "")
+        se = e.stderr.decode() if isinstance(e.stderr, bytes) else (e.stderr or "")
+    results = []
+    for line in so.splitlines():
+        try:
+            results.append(json.loads(line))
+        except ValueError:
+            pass
+    crash = None
+    if timed_out or rc != 0:
+        begins = [l.split() for l in se.splitlines() if l.startswith("BEGIN ")]
+        last = begins[-1][1:] if begins else ["?", "?", "?"]
+        if rc == 2 and "c18build: " in se and "panic" not in se and "fatal error" not in se:
+            raise vlib.HarnessError("c18build failed: " + se[-1500:])
+        if timed_out:
+            kind = "deadlock-or-timeout"
+        elif "DATA RACE" in se:
+            kind = "data-race"
+        else:
+            kind = "crash"
+        # keep the diagnostic part of stderr (not the BEGIN lines)
+        diag = "\n".join(l for l in se.splitlines() if not l.startswith("BEGIN "))
+        crash = {"kind": kind, "prog": last[0], "mode": last[1], "variant": last[2], "exit": rc,
+                 "stderr": diag[-6000:], "timeout_s": timeout if timed_out else None}
+    return results, crash
+
+
+import subprocess  # noqa: E402  (used by run_harness)
+
+
+# ----------------------------------------------------------------------------- model tie
+def fn_tokens(a, pid_of):
+    return "0 %d %d" % (pid_of[a["owner"]], a["id"]) if a["owner"] >= 0 else "1 %d 0" % a["id"]
+
+
+def model_lines(res, rng, nsched):
+    """`run` lines (the abstraction of the program under seeded schedules and capacities) and the
+    expectation for each; plus the `final` line for the task graph of the real parallel build."""
+    ab = res["abstract"]
+    owners = sorted({a["owner"] for a in ab if a["owner"] >= 0})
+    pid_of = {o: i for i, o in enumerate(owners)}
+    nproc = len(owners)
+    decl = [a for a in ab if a["owner"] >= 0]
+    shared = sorted(a["id"] for a in ab if a["owner"] < 0)
+    roots = " ".join("%d %d" % (pid_of[a["owner"]], a["id"]) for a in decl)
+    refs = " ".join("%s %d %s" % (fn_tokens(a, pid_of), len(a["refs"]), " ".join(map(str, a["refs"]))) for a in ab)
+    nsteps = 6 * len(ab) + sum(len(a["refs"]) for a in ab) + 8 * nproc
+    lines, expect = [], []
+    for j in range(nsched):
+        cap = [1, 2, max(1, nproc), max(1, nproc // 2)][j % 4]
+        r = rng.fork("sched%d" % j)
+        if j % 4 == 0:
+            sched = []          # serial: lowest enabled first
+        else:
+            # bursts of random length: a builder runs for a while, then another one
+            sched = []
+            while len(sched) < nsteps:
+                p = r.below(max(1, nproc))
+                sched += [p] * (1 + r.below([1, 4, 40][j % 3]))
+        lines.append("run %d %d %s %d %s %d %s %d %s" % (
+            nproc, cap, " ".join("1" * 1 for _ in range(nproc)), len(decl), roots, len(ab), refs,
+            len(sched), " ".join(map(str, sched))))
+        expect.append({"built": len(ab), "memo": shared})
+    # final view of the real heap
+    tasks = res["final"] or []
+    task_of = {a["id"]: a["task"] for a in ab}
+    fl = ["final", str(len(tasks))]
+    fl += ["1" if t["done"] else "0" for t in tasks]
+    fl += ["1" if t["trans"] else "0" for t in tasks]
+    for t in tasks:
+        fl += [str(len(t["edges"]))] + [str(e) for e in t["edges"]]
+    fl.append(str(len(ab)))
+    for a in ab:
+        rt = [task_of[r] for r in a["refs"]]
+        if any(x < 0 for x in rt):
+            rt = [x if x >= 0 else len(tasks) for x in rt]   # a shared function without task: out of range => reject
+        fl += [str(a["task"] + 1), "1" if a["built"] else "0", str(len(rt))] + [str(x) for x in rt]
+    return lines, expect, " ".join(fl)
+
+
+def trace_line(tr):
+    """The protocol events of a real traced build (go/ir verif trace hook) as a `trace` line of the
+    model driver: the program abstraction (builders, roots, per function the sequence of lookups)
+    is read off the same trace; every event becomes the model step it must coincide with."""
+    ev = tr["events"]
+    nfn = len(tr["fns"])
+    task_b = {}
+    for e in ev:
+        if e["b"] >= 0 and e["t"] >= 0:
+            if task_b.setdefault(e["t"], e["b"]) != e["b"]:
+                return None, "task %d used by two builders" % e["t"]
+    nb = 1 + max([e["b"] for e in ev] + [-1])
+    decl_of, roots, pkgs = {}, [], {}
+    for e in ev:
+        if e["k"] == "start":
+            if e.get("pkg"):
+                if e["pkg"] in pkgs:
+                    return None, "package %s built by two builders (sync.Once broken)" % e["pkg"]
+                pkgs[e["pkg"]] = e["b"]
+            for f in e.get("fns") or []:
+                decl_of[f] = e["b"]
+
+    def fid(f):
+        return "0 %d %d" % (decl_of[f], f) if f in decl_of else "1 %d 0" % f
+
+    refs, out, cur, last_n1, niltask, pseudo = {}, [], {}, {}, {}, {}
+    ignored_hits = 0
+
+    def close_pseudo(p):
+        if p in pseudo and cur.get(p) == pseudo[p]:
+            out.append("%d 5 3 %s" % (p, pseudo[p]))
+            cur[p] = None
+
+    def b_of_task(t):
+        if t not in task_b:
+            raise KeyError("task %d has no builder" % t)
+        return task_b[t]
+    try:
+        for e in ev:
+            k = e["k"]
+            p = e["b"] if e["b"] >= 0 else (b_of_task(e["t"]) if e["t"] >= 0 else -1)
+            if k == "start":
+                out.append("%d 0 0" % p)
+                if e.get("pkg"):
+                    for f in e.get("fns") or []:
+                        roots.append("%d %d" % (p, f))
+                else:   # Program.MethodValue: a pseudo root holds the lookup made under methodsMu
+                    pseudo[p] = "0 %d %d" % (p, nfn + p)
+                    roots.append("%d %d" % (p, nfn + p))
+                    out.append("%d 1 3 %s" % (p, pseudo[p]))
+                    cur[p] = pseudo[p]
+                    refs[pseudo[p]] = []
+            elif k == "build":
+                close_pseudo(p)
+                if e["fl"]:
+                    out.append("%d 1 3 %s" % (p, fid(e["f"])))
+                    cur[p] = fid(e["f"])
+                    if cur[p] in refs:
+                        return None, "function %s built twice" % tr["fns"][e["f"]]
+                    refs[cur[p]] = []
+                else:
+                    out.append("%d 2 3 %s" % (p, fid(e["f"])))
+            elif k == "enqueue":
+                if not cur.get(p):
+                    return None, "function enqueued outside buildFunction by builder %d" % p
+                refs[cur[p]].append(e["f"])
+                out.append("%d 3 1 %d" % (p, e["f"]))
+            elif k == "hit":
+                if e["ft"] < 0:
+                    ignored_hits += 1       # a function without task: never waited for
+                    continue
+                if not cur.get(p):
+                    return None, "lookup outside buildFunction by builder %d" % p
+                refs[cur[p]].append(e["f"])
+                added = 1 if e["n1"] > last_n1.get(p, 0) else 0
+                last_n1[p] = e["n1"]
+                out.append("%d 4 3 %d %d %d" % (p, e["f"], b_of_task(e["ft"]), added))
+            elif k == "fndone":
+                out.append("%d 5 3 %s" % (p, fid(e["f"])))
+                cur[p] = None
+            elif k == "markdone":
+                close_pseudo(p)
+                out.append("%d 6 0" % p)
+                niltask[p] = e["t"] < 0
+            elif k == "waitskip":
+                out.append("%d 7 1 %d" % (p, b_of_task(e["o"])))
+            elif k == "waitcheck":
+                out.append("%d 8 1 %d" % (p, b_of_task(e["o"])))
+            elif k == "waitrecv":
+                new = [b_of_task(t) for t in e.get("new") or []]
+                out.append("%d 9 %d %d %s" % (p, 1 + len(new), b_of_task(e["o"]), " ".join(map(str, new))))
+            elif k == "waitend":
+                out.append("%d 10 0" % p)
+            elif k == "return":
+                if niltask.get(p):   # builder without task: its wait returns at once; nobody can refer to its task
+                    out += ["%d 8 1 %d" % (p, p), "%d 9 1 %d" % (p, p), "%d 10 0" % p]
+                out.append("%d 11 0" % p)
+            else:
+                return None, "unknown event kind %s" % k
+    except KeyError as ex:
+        return None, str(ex)
+    reftoks = " ".join("%s %d %s" % (f, len(ks), " ".join(map(str, ks))) for f, ks in refs.items())
+    line = "trace %d %d %s %d %s %d %s" % (nb, len(roots), " ".join(roots), len(refs), reftoks, len(out), " ".join(out))
+    return " ".join(line.split()), {"builders": nb, "package_builders": len(pkgs), "events": len(out),
+                                   "functions": len(refs), "hits_without_task": ignored_hits,
+                                   "edges_added": sum(1 for o in out if o.split()[1] == "4" and o.split()[-1] == "1")}
+
+
+def parse_model(out):
+    d = dict(kv.split("=", 1) for kv in out.split())
+    memo = sorted(int(e.split(":")[0]) for e in d.get("memo", "").split(",") if e)
+    return d, memo
+
+
+# ----------------------------------------------------------------------------- the check
+def configs(ctx):
+    s = ctx.seed
+    if ctx.quick:
+        return [
+            {"gomaxprocs": 2, "yield": s * 7 + 1, "reps": 4, "modes": "0,G", "seed": s, "abstract": True},
+            {"gomaxprocs": 4, "yield": None, "reps": 4, "modes": "0,G", "seed": s + 11, "abstract": True},
+            {"gomaxprocs": 8, "yield": s * 7 + 2, "reps": 4, "modes": "0,G", "seed": s + 23, "abstract": True},
+            {"gomaxprocs": 16, "yield": s * 7 + 3, "reps": 4, "modes": "0,GD", "seed": s + 37, "abstract": True},
+        ], [
+            {"gomaxprocs": 8, "yield": s * 7 + 4, "reps": 2, "modes": "G", "seed": s + 41, "race": True},
+        ]
+    cs, rs = [], []
+    for i, g in enumerate([1, 2, 3, 4, 8, 16, 32]):
+        for j in range(3):
+            cs.append({"gomaxprocs": g, "yield": None if (i + j) % 4 == 0 else s * 101 + 10 * i + j, "reps": 12,
+                       "modes": ["0,G", "0,GD", "G,N"][j], "seed": s + 100 * i + j, "abstract": True})
+    for i, g in enumerate([2, 8, 16]):
+        rs.append({"gomaxprocs": g, "yield": s * 13 + i, "reps": 4, "modes": "0,G", "seed": s + 7 * i, "race": True})
+    return cs, rs
+
+
+def run(ctx):
+    tm = {}
+    t0 = time.time()
+    lean_ok, lean_broke = vlib.std_lean_phase(ctx, MODULES, THEOREMS)
+    tm["lean_build_and_audit_s"] = round(time.time() - t0, 1)
+    t0 = time.time()
+    binary = vlib.build_harness(ctx, "c18build")
+    racebin = vlib.build_harness(ctx, "c18build", name="c18build_race", race=True)
+    tm["go_build_s"] = round(time.time() - t0, 1)
+
+    # ---- programs: corpus first, then generated from the seed
+    corpus = json.load(open(CORPUS))
+    counts = [2, 2, 1] if ctx.quick else [6, 6, 4]
+    gen, hist = gen_programs(ctx.seed, counts)
+    progs = corpus + gen
+    by_name = {p["name"]: p for p in progs}
+    if ctx.replay:
+        rp = json.load(open(ctx.replay))
+        progs = [rp["program"]]
+        by_name = {rp["program"]["name"]: rp["program"]}
+    progfile = ctx.path("progs", "all.json")
+    json.dump(progs, open(progfile, "w"))
+    race_progs = corpus + gen[:2] if ctx.quick else progs
+    racefile = ctx.path("progs", "race.json")
+    json.dump(race_progs if not ctx.replay else progs, open(racefile, "w"))
+
+    cfgs, rcfgs = configs(ctx)
+    if ctx.replay:
+        c = dict(rp.get("config") or cfgs[0])
+        c.pop("only", None)
+        cfgs, rcfgs = ([c], []) if not c.get("race") else ([], [c])
+    # generous: a deadlock of all goroutines is reported by the Go runtime at once; the timeout only
+    # catches partial deadlocks and must not fire because the machine is busy
+    per_prog_budget = 150 if ctx.quick else 400
+
+    def job(item):
+        cfg, race = item
+        t0 = time.time()
+        r = run_harness(ctx, racebin if race else binary, racefile if race else progfile, cfg,
+                        timeout=per_prog_budget * len(progs) * (2 if race else 1))
+        return cfg, race, r, time.time() - t0
+
+    with ThreadPoolExecutor(max_workers=3 if ctx.quick else 4) as ex:
+        outs = list(ex.map(job, [(c, True) for c in rcfgs] + [(c, False) for c in cfgs]))
+
+    tm["harness_runs_s"] = {"%s%s" % ("race " if race else "", c["gomaxprocs"]): round(w, 1) for c, race, _, w in outs}
+    nbuilds = 0
+    oracle_fail = []      # concrete failures on the real code
+    race_runs = 0
+    nontrivial = set()
+    kinds_hist = {}
+    samples = []
+    model_in, model_meta = [], []
+    rng = vlib.SplitMix(ctx.seed).fork("c18-model")
+    seen_abs = set()
+    trace_bad, trace_events, trace_edges = [], 0, 0
+    for cfg, race, (results, crash), wall in outs:
+        if race:
+            race_runs += 1
+        for res in results:
+            nbuilds += res["nbuilds"] + 1
+            for k, v in res["kinds"].items():
+                kinds_hist[k] = kinds_hist.get(k, 0) + v
+            for pr in res["problems"]:
+                oracle_fail.append({"prog": res["prog"], "mode": res["mode"], "config": cfg, "kind": pr["kind"],
+                                    "variant": pr["variant"], "detail": pr["detail"]})
+            if res.get("abstract"):
+                tasks = res.get("final") or []
+                owners = [t for t in tasks if t["owns"]]
+                if len(owners) >= 2 and any(t["edges"] for t in tasks):
+                    nontrivial.add((res["prog"], res["mode"]))
+                key = (res["prog"], res["mode"])
+                nsched = 0 if key in seen_abs else (4 if ctx.quick else 8)
+                seen_abs.add(key)
+                lines, expect, fline = model_lines(res, rng.fork("%s/%s" % key), nsched)
+                for l, e in zip(lines, expect):
+                    model_in.append(l)
+                    model_meta.append(("run", res["prog"], res["mode"], cfg, e))
+                model_in.append(fline)
+                model_meta.append(("final", res["prog"], res["mode"], cfg, {"tasks": tasks}))
+                if res.get("trace"):
+                    tl, tmeta = trace_line(res["trace"])
+                    if tl is None:
+                        trace_bad.append({"stream": "trace", "prog": res["prog"], "mode": res["mode"], "config": cfg,
+                                          "trace_rejected": tmeta})
+                    else:
+                        model_in.append(tl)
+                        model_meta.append(("trace", res["prog"], res["mode"], cfg, tmeta))
+                        trace_events += tmeta["events"]
+                        trace_edges += tmeta["edges_added"]
+                if len(samples) < 4 and key[0].startswith("corpus"):
+                    samples.append({"prog": res["prog"], "mode": res["mode"], "gomaxprocs": res["gomaxprocs"],
+                                    "functions": res["nfuncs"], "shared": res["nshared"], "builds": res["nbuilds"],
+                                    "task_graph_of_parallel_build": [{"task": t["id"], "edges": t["edges"], "owns": len(t["owns"])} for t in tasks]})
+        if crash:
+            crash["config"] = cfg
+            oracle_fail.append(crash)
+
+    # ---- model: abstraction of every program under seeded schedules; validator on real final graphs
+    t0 = time.time()
+    model_out = vlib.run_model(ctx, "C18", model_in) if model_in else []
+    tm["model_s"] = round(time.time() - t0, 1)
+    ctx.coverage["timing"] = tm
+    tie_diffs = list(trace_bad)
+    nrun = nfinal = ntrace = 0
+    for (kind, prog, mode, cfg, e), line, out in zip(model_meta, model_in, model_out):
+        if out == "bad-op":
+            raise vlib.HarnessError("model rejected line: " + line[:300])
+        if kind == "run":
+            nrun += 1
+            d, memo = parse_model(out)
+            ok = d.get("fin") == "1" and d.get("panic") == "0" and d.get("check") == "1" and \
+                int(d.get("built", -1)) == e["built"] and memo == e["memo"]
+            if not ok:
+                tie_diffs.append({"stream": "run", "prog": prog, "mode": mode, "model": out[:400],
+                                  "expected_built": e["built"], "go_ir_created_shared": len(e["memo"]),
+                                  "only_in_model": sorted(set(memo) - set(e["memo"]))[:20],
+                                  "only_in_go_ir": sorted(set(e["memo"]) - set(memo))[:20]})
+        elif kind == "trace":
+            ntrace += 1
+            d = dict(kv.split("=", 1) for kv in out.split()[1:] if "=" in kv)
+            if not (out.startswith("ok ") and d.get("fin") == "1" and d.get("check") == "1" and d.get("panic") == "0"):
+                tie_diffs.append({"stream": "trace", "prog": prog, "mode": mode, "config": cfg, "model": out[:600],
+                                  "meaning": "the n-th protocol event of a real traced build is not the step the model "
+                                             "takes for that builder in that state", "trace_stats": e})
+        else:
+            nfinal += 1
+            if out != "ok":
+                tie_diffs.append({"stream": "final", "prog": prog, "mode": mode, "config": cfg, "validator": out,
+                                  "task_graph": e["tasks"], "model_input": line[:2000]})
+
+    ctx.coverage.update({
+        "evaluations": nbuilds + nrun + nfinal + ntrace,
+        "traces_replayed": ntrace, "trace_events_replayed": trace_events, "trace_edges_added": trace_edges,
+        "builds_of_real_go_ir": nbuilds,
+        "model_runs": nrun, "final_graphs_validated": nfinal,
+        "programs": len(progs), "generated_programs": len(gen), "corpus_programs": len(corpus),
+        "harness_processes": len(cfgs), "race_detector_processes": race_runs,
+        "configs": [{k: v for k, v in c.items() if k != "abstract"} for c in cfgs + rcfgs],
+        "distinct_nontrivial": len(nontrivial),
+        "rule": "distinct (program, builder mode) pairs whose real parallel build left a task graph in which at least two "
+                "builders created shared functions and at least one builder waited for another (edge in the task graph)",
+        "function_kinds_histogram": kinds_hist, "generator_snippet_histogram": hist,
+        "samples": samples,
+        "disagreements_checked": nrun + nfinal + ntrace,
+    })
+    ctx.assumptions += [
+        "the race detector is run-time evidence for the explored schedules only; the Lean model has no memory model "
+        "(mutual exclusion of the memo tables and happens-before through channel close are built into the atomic steps)",
+        "the bodies of functions are outside the protocol model: 'same IR up to value numbering' is the oracle "
+        "(dump comparison serial vs parallel vs repeated vs concurrent), not a theorem",
+        "abstraction of a program (harness/cmd/c18build abstract): references = functions used as operands, bound/thunk "
+        "functions folded into their user; trusted",
+    ]
+
+    # ---- classification
+    known = vlib.load_known_findings("C18")
+    # one report per (kind, program), at most 6 (the rest is counted in the evidence)
+    uniq, seen_f = [], set()
+    for f in oracle_fail:
+        k = (f["kind"], f["prog"])
+        if k not in seen_f:
+            seen_f.add(k)
+            uniq.append(f)
+    ctx.coverage["oracle_failures"] = len(oracle_fail)
+    for i, f in enumerate(uniq[:6]):
+        pname = f["prog"]
+        cfg = dict(f["config"])
+        cfg["only"] = pname
+        ctx.violation("oracle_%s_%s_%s_%d.json" % (f["kind"], pname, f.get("mode", ""), i), {
+            "what": {"unbuilt": "a function is not built when Build returned",
+                     "nobody": "a function has no body when Build returned",
+                     "duplicate": "a shared function was created twice for one key",
+                     "dump-differs": "two builds of the same program differ beyond value numbering",
+                     "not-idempotent": "calling Build again changed the program",
+                     "panic": "Build panicked",
+                     "crash": "the process crashed during a build (panic in a builder goroutine)",
+                     "deadlock-or-timeout": "a build did not return (builders wait for each other)",
+                     "data-race": "the race detector reported a data race during a build"}.get(f["kind"], f["kind"]),
+            "failure": f, "program": by_name.get(pname), "mode": f.get("mode"), "config": cfg,
+            "how_to_replay": HOWTO + "  (or ./check C18 --replay <this file>)",
+        }, text="C18: %s in %s mode %s variant %s: %s" % (f["kind"], pname, f.get("mode"), f.get("variant"),
+                                                          (f.get("detail") or f.get("stderr") or "")[:600]))
+    if not oracle_fail and (tie_diffs or not lean_ok):
+        # model/implementation mismatch or broken proof: search for a failing input with the oracle
+        found = violation_search(ctx, binary, progs, tie_diffs)
+        if found:
+            f = found
+            ctx.violation("search_%s_%s.json" % (f["kind"], f["prog"]), {
+                "what": "found by the violation search after the model tie / proof broke", "failure": f,
+                "program": by_name.get(f["prog"]), "mode": f.get("mode"), "config": f["config"],
+                "tie_diffs": tie_diffs[:5], "lean": lean_broke, "how_to_replay": HOWTO},
+                text="C18: %s in %s (%s)" % (f["kind"], f["prog"], (f.get("detail") or f.get("stderr") or "")[:400]))
+        else:
+            ctx.violation("correspondence.json", {
+                "what": "the protocol model no longer corresponds to go/ir (or a proof no longer checks) but no build "
+                        "misbehaved on the explored programs and schedules",
+                "tie_diffs": tie_diffs[:10], "lean": lean_broke,
+                "programs": {d["prog"]: by_name.get(d["prog"]) for d in tie_diffs[:2]},
+                "correspondence": "C18 run/final streams; theorems " + ", ".join(THEOREMS)}, nofail=True,
+                text="C18: model tie broke: %s" % (json.dumps(tie_diffs[:2])[:800] if tie_diffs else lean_broke))
+    return vlib.finish(ctx, "proof")
+
+
+def violation_search(ctx, binary, progs, tie_diffs):
+    """More schedules through the oracle, first on the programs whose tie broke."""
+    first = [d["prog"] for d in tie_diffs]
+    order = sorted(progs, key=lambda p: (p["name"] not in first))
+    f = ctx.path("progs", "search.json")
+    json.dump(order[:6] if ctx.quick else order, open(f, "w"))
+    for i, g in enumerate([2, 8, 3, 16]):
+        cfg = {"gomaxprocs": g, "yield": ctx.seed * 1000 + i, "reps": 16 if ctx.quick else 40, "modes": "0,G",
+               "seed": ctx.seed + 500 + i}
+        results, crash = run_harness(ctx, binary, f, cfg, timeout=900 if ctx.quick else 2400)
+        for res in results:
+            for pr in res["problems"]:
+                c = dict(cfg)
+                c["only"] = res["prog"]
+                return {"prog": res["prog"], "mode": res["mode"], "config": c, "kind": pr["kind"],
+                        "variant": pr["variant"], "detail": pr["detail"]}
+        if crash:
+            crash["config"] = cfg
+            return crash
+    return None
+
+
+META = {
+    "level": "proof",
+    "technique": "Lean 4 labelled transition system of go/ir's build protocol (task graph, memo tables under mutex, "
+                 "sync.Once, cpuLimit) with invariants proved over all interleavings; executable correspondence with "
+                 "the real builder on generated multi-package programs; race detector",
+    "text": "Proved for the protocol model, for all programs and all interleavings (any scheduler, any semaphore "
+            "capacity, any map iteration order in wait): every shared function is created at most once per key and "
+            "every body built at most once, by its owner (created_once, built_once); when a package's Build has "
+            "returned every function it transitively needs is built, cyclic waits included (wait_complete, "
+            "build_complete, program_build_complete); no reachable state is stuck and a blocked waiter always waits "
+            "for a builder that can step (no_deadlock, blocked_on_active_builder, no_panic); a finished build is "
+            "terminal and Build/buildFunction again change nothing (build_idempotent); all complete builds create and "
+            "build the same set of functions (schedule_independent). Explored, not proved: that function bodies are "
+            "equal up to value numbering across serial/parallel/repeated/concurrent builds (dump comparison on the "
+            "real go/ir), and data-race freedom (race detector on the explored schedules).",
+    "note": "Tie: the abstraction of every generated program (builders, functions, references to shared functions, read "
+            "from the real built program) is executed by the compiled model under seeded schedules and capacities; the "
+            "set of shared functions must equal what go/ir created, and the task graph each real parallel build leaves "
+            "behind must pass the proved validator checkFinal. Trusted: Lean kernel, compiled model driver, "
+            "harness/cmd/c18build (reflection on unexported fields), Go race detector. Function bodies and the Go "
+            "memory model are outside the Lean model.",
+    "design_ref": "DESIGN.md section 5, C18",
+}
 
 if __name__ == "__main__":
     progs, hist = gen_programs(int(sys.argv[1]), [int(x) for x in sys.argv[2].split(",")])
